@@ -727,12 +727,27 @@ def r18_11(prog, out):
                 bi = prog.info(b.id)
                 key = "%s:wrapper:%s" % (label, prog.short(b.id))
                 calls = {bb for bb, t in bi.calls(lambda c: prog.qual(b, c.target) in tp)}
+                # the wrapper may hand the kind's parser to a table of its own kind (`NameCache<TopicName>` built over
+                # `TopicName::try_parse`) and take names only out of that: the name is never put together here
+                builds = any(st.k == "assign" and st.rv.k == "agg" and st.rv.j.get("adt") == ty for blk in bi.body.blocks for st in blk.stmts) or any(
+                    True for bb, t in bi.calls(lambda c: (prog.facts.body(prog.qual(b, c.target)) is not None and prog.facts.body(prog.qual(b, c.target)).impl_self == ty
+                                                       and prog.qual(b, c.target) not in tp and not prog.facts.body(prog.qual(b, c.target)).impl_trait
+                                                       and any((prog.facts.body(prog.qual(b, c.target)).local_ty(i) or "") == "&str" for i in range(1, prog.facts.body(prog.qual(b, c.target)).arg_count + 1)))))
+                typed_table = any(("<%s>" % ty) in (bi.body.local_ty(i) or "") and (bi.body.local_ty(i) or "").lstrip("&").startswith("crate::") for i in range(len(bi.body.locals)))
+                parser_as_value = any(isinstance(c.get("fn") if isinstance(c, dict) else None, str) for c in [])
+                if not calls and typed_table and not builds:
+                    out.undecided(key, prog.loc(b.id), "%s takes its names out of a table typed for %s; that every entry was produced by %s::try_parse for exactly the text "
+                                  "it is stored under is not decided here" % (prog.short(b.id), label, label))
+                    continue
                 if not calls:
                     out.violation(key, prog.loc(b.id), "%s turns text into a %s without calling %s::try_parse" % (prog.short(b.id), label, label))
                     continue
                 esc = bi.cfg.escapes(0, calls | error_blocks(bi), after=False)
                 if esc is None:
                     out.holds(key, prog.loc(b.id), "every non-error path goes through %s::try_parse" % label)
+                elif typed_table and not builds:
+                    out.undecided(key, bi.loc(esc[-1]), "%s can answer from a table typed for %s without calling %s::try_parse on that path: whether every entry was produced by it "
+                                  "for exactly that text is not decided here" % (prog.short(b.id), label, label))
                 else:
                     out.violation(key, bi.loc(esc[-1]), "%s can hand out a %s on a path that never calls %s::try_parse (a remembered / hand-built name): text that is "
                                   "not a %s name -- e.g. a name of the other kind seen earlier -- is accepted as one" % (prog.short(b.id), label, label, label),
